@@ -18,6 +18,7 @@ instance (o : Obj) (x y : α) : Decidable (better o x y) := by unfold better; ca
 
 /-- `x` is at least as good as `y` -/
 def atLeast (o : Obj) (x y : α) : Prop := ¬ better o y x
+instance (o : Obj) (x y : α) : Decidable (atLeast o x y) := by unfold atLeast; infer_instance
 
 theorem better_irrefl (o : Obj) (x : α) : ¬ better o x x := by cases o <;> simp [better]
 theorem better_asymm {o : Obj} {x y : α} (h : better o x y) : ¬ better o y x := by
